@@ -208,13 +208,36 @@ def _delay_queries(factory, inner_name, label):
     from vk import py2smt as P
     from aws_durable_execution_sdk_python.config import JitterStrategy
 
+    import inspect
     outer = P.fn_ast(factory)
     inner = [n for n in ast.walk(outer) if isinstance(n, ast.FunctionDef) and n.name == inner_name][0]
-    stmts = {s.targets[0].id if isinstance(s, ast.Assign) else s.target.id: s.value for s in inner.body
-             if isinstance(s, (ast.Assign, ast.AnnAssign)) and isinstance((s.targets[0] if isinstance(s, ast.Assign) else s.target), ast.Name)}
-    for need in ("base_delay", "delay_with_jitter", "final_delay"):
-        if need not in stmts:
-            raise P.Untranslatable(f"{label}: statement `{need} = ...` not found")
+    module = inspect.getmodule(factory)
+
+    def assignments(fdef, depth=0):
+        """ordered (name, value expression) pairs of a function body; a call to a helper function of the same module is inlined (its assignments, then its
+        return expression under the assigned name), so it does not matter whether the delay computation sits in the closure or in a helper"""
+        out = []
+        for st in fdef.body:
+            if isinstance(st, ast.Assign) and len(st.targets) == 1 and isinstance(st.targets[0], ast.Name):
+                name, val = st.targets[0].id, st.value
+            elif isinstance(st, ast.AnnAssign) and isinstance(st.target, ast.Name) and st.value is not None:
+                name, val = st.target.id, st.value
+            else:
+                continue
+            helper = getattr(module, val.func.id, None) if (isinstance(val, ast.Call) and isinstance(val.func, ast.Name)) else None
+            if inspect.isfunction(helper) and inspect.getmodule(helper) is module and depth < 2:
+                hdef = P.fn_ast(helper)
+                out += assignments(hdef, depth + 1)
+                rets = [x for x in hdef.body if isinstance(x, ast.Return)]
+                if len(rets) == 1 and rets[0].value is not None:
+                    out.append((name, rets[0].value))
+                    continue
+            out.append((name, val))
+        return out
+
+    seq = assignments(inner)
+    if "final_delay" not in [n for n, _v in seq]:
+        raise P.Untranslatable(f"{label}: no assignment to `final_delay` found (directly or through a helper of the same module)")
     jit = P.fn_ast(JitterStrategy.apply_jitter)
     match = [s for s in jit.body if isinstance(s, ast.Match)][0]
 
@@ -278,8 +301,13 @@ def _delay_queries(factory, inner_name, label):
                     return None
 
                 tr = P.Tr({}, intr, "real")
-                for name in ("base_delay", "delay_with_jitter", "final_delay"):
-                    tr.env[name] = tr.expr(stmts[name])
+                for name, val in seq:
+                    try:
+                        tr.env[name] = tr.expr(val)
+                    except P.Untranslatable:
+                        tr.env.pop(name, None)      # not part of the delay computation (e.g. the retryable-error filters)
+                if "final_delay" not in tr.env:
+                    raise P.Untranslatable(f"{label}: the expression assigned to `final_delay` could not be translated")
                 d = P.to_int(tr.env["final_delay"])
                 # reference: capped backoff, then jitter, then ceil, then at least 1
                 powr = z3.RealVal(1)
